@@ -898,9 +898,11 @@ Definition C14_mismatch (c : c14_case) : bool :=
 (* ---------------------------------------------------------------- the monitor *)
 
 (* per scope: the reference state, the K1 variant (Some after a K1-signature save
-   until the divergence is seen), and whether the scope is still judged *)
-Record mscope := MSC { q_ref : rstate; q_k1 : option rstate; q_judged : bool }.
-Definition mscope0 : mscope := MSC rstate0 None true.
+   until the divergence is seen), whether the scope is still judged, and whether
+   memory.go (a test double that does not filter a same-save overlap with the
+   snapshot) is still judged *)
+Record mscope := MSC { q_ref : rstate; q_k1 : option rstate; q_judged : bool; q_mem : bool }.
+Definition mscope0 : mscope := MSC rstate0 None true true.
 Definition msc_of (sc : N) (l : list (N * mscope)) : mscope :=
   match aget sc l with Some m => m | None => mscope0 end.
 
@@ -912,7 +914,7 @@ Definition worse (a b : N) : N :=          (* 1 (violation) dominates 2 (known f
 Definition flag (m : mon) (c : N) : mon := MON (mn_sc m) (worse (mn_code m) c).
 Definition set_msc (m : mon) (sc : N) (q : mscope) : mon := MON (aset sc q (mn_sc m)) (mn_code m).
 Definition unjudge (m : mon) (sc : N) : mon :=
-  let q := msc_of sc (mn_sc m) in set_msc m sc (MSC (q_ref q) (q_k1 q) false).
+  let q := msc_of sc (mn_sc m) in set_msc m sc (MSC (q_ref q) (q_k1 q) false false).
 
 Definition expected_code (x : rres) : N :=
   match x with ROk _ => 0 | RRej c => c | RInvalid => 0 end.
@@ -921,6 +923,13 @@ Fixpoint scopes_distinct (l : list N) : bool :=
   match l with
   | [] => true
   | x :: r => negb (existsb (N.eqb x) r) && scopes_distinct r
+  end.
+
+(* what a raft Ready can contain: the entries of a save that carries a snapshot lie above it *)
+Definition req_ready_shaped (q : wreq) : bool :=
+  match q with
+  | WSave _ (e0 :: _) (Some s) => s_idx s <? e_idx e0
+  | _ => true
   end.
 
 (* one request of a committed group (mode 0).  [strict] = every request of the
@@ -940,7 +949,7 @@ Definition mon_req (strict : bool) (m : mon) (sc : N) (q : wreq) (code : N) : mo
                                 then match ref_req true (q_ref s) q with ROk rk' => Some rk' | _ => None end
                                 else None
                       end in
-           set_msc m1 sc (MSC r' k1' true)
+           set_msc m1 sc (MSC r' k1' true (q_mem s && req_ready_shaped q))
        | _ => (* accepted although the reference refuses it *)
            if strict then m1 else unjudge m1 sc
        end.
@@ -955,28 +964,15 @@ Fixpoint mon_reqs (strict : bool) (m : mon) (reqs : list (N * wreq)) (codes : li
 Definition group_strict (m : mon) (reqs : list (N * wreq)) : bool :=
   forallb (fun p => let s := msc_of (fst p) (mn_sc m) in q_judged s && req_valid (q_ref s) (snd p)) reqs.
 
-(* compare an observation of scope sc with the reference *)
-Definition judge_obs (m : mon) (sc : N) (o : option fullobs) (taint_on_k1 : bool) : mon :=
-  let s := msc_of sc (mn_sc m) in
-  if negb (q_judged s) then m else
-  match ref_observe (q_ref s) with
-  | None => m
-  | Some want =>
-      match o with
-      | None => flag m 1
-      | Some got =>
-          if fullobs_eqb got want then m
-          else match q_k1 s with
-               | Some rk =>
-                   match ref_observe rk with
-                   | Some wk => if fullobs_eqb got wk
-                                then (let m' := flag m 2 in if taint_on_k1 then unjudge m' sc else m')
-                                else flag m 1
-                   | None => flag m 1
-                   end
-               | None => flag m 1
-               end
-      end
+(* 0: [f] holds of the reference; 2: only of the K1 variant; 1: of neither *)
+Definition k1_or (s : mscope) (f : rstate -> bool) : N :=
+  if f (q_ref s) then 0
+  else match q_k1 s with Some rk => if f rk then 2 else 1 | None => 1 end.
+
+Definition obs_is (o : option fullobs) (r : rstate) : bool :=
+  match ref_observe r, o with
+  | Some want, Some got => fullobs_eqb got want
+  | _, _ => false
   end.
 
 (* entries returned by any query: inside [first,last] and [lo,hi), each equal to the reference entry *)
@@ -987,20 +983,16 @@ Definition entries_safe (r : rstate) (lo hi : N) (l : list entry) : bool :=
                     && match ref_entry_at r (e_idx e) with Some e' => entry_eqb e e' | None => false end) l
   && match l with [] => true | e0 :: _ => contiguous_from (e_idx e0) l end.
 
-Definition judge_entries (r : rstate) (lo hi mx : N) (l : list entry) : bool :=
+Definition judge_entries (lo hi mx : N) (l : list entry) (r : rstate) : bool :=
   if (r_first r <=? lo) && (lo <=? hi) && (hi <=? r_last r + 1)
   then entries_eqb l (ref_entries r lo hi mx)
   else entries_safe r lo hi l.
 
-Definition judge_term (r : rstate) (i t : N) : bool :=
+Definition judge_term (i t : N) (r : rstate) : bool :=
   match r_term r i with
   | Some t' => t =? t'
   | None => t =? 0                      (* no term for an index it does not hold *)
   end.
-
-Definition k1_or (s : mscope) (f : rstate -> bool) : N :=
-  if f (q_ref s) then 0
-  else match q_k1 s with Some rk => if f rk then 2 else 1 | None => 1 end.
 
 Definition mon_step (m : mon) (st : op * oresult) : mon :=
   match st with
@@ -1010,21 +1002,33 @@ Definition mon_step (m : mon) (st : op * oresult) : mon :=
       else (* the commit was refused or cut: every request reports an error, nothing changes *)
         if forallb (fun c => negb (c =? 0)) codes && (length codes =? length reqs)%nat then m else flag m 1
   | (OReopen, RNone) => m
-  | (OObserve sc, RObs p mm) => judge_obs (judge_obs m sc mm false) sc p true
+  | (OObserve sc, RObs p mm) =>
+      let s := msc_of sc (mn_sc m) in
+      if negb (q_judged s) then m else
+      match ref_observe (q_ref s) with
+      | None => m
+      | Some _ =>
+          let cp := k1_or s (obs_is p) in
+          let cm := if q_mem s then k1_or s (obs_is mm) else 0 in
+          let m' := flag (flag m cp) cm in
+          (* once the K1 divergence has been seen the scope is off the reference *)
+          if cp =? 2 then unjudge m' sc else m'
+      end
   | (OQuery sc (QEntries lo hi mx), REntries p mm) =>
       let s := msc_of sc (mn_sc m) in
       if negb (q_judged s) then m else
       match p with
       | None => flag m 1
-      | Some l => flag (flag m (k1_or s (fun r => judge_entries r lo hi mx l)))
-                       (if (0 <? hi) then k1_or s (fun r => judge_entries r lo hi mx mm) else 0)
+      | Some l => flag (flag m (k1_or s (judge_entries lo hi mx l)))
+                       (if (0 <? hi) && q_mem s then k1_or s (judge_entries lo hi mx mm) else 0)
       end
   | (OQuery sc (QTerm i), RTerm p mm) =>
       let s := msc_of sc (mn_sc m) in
       if negb (q_judged s) then m else
       match p with
       | None => flag m 1
-      | Some t => flag (flag m (k1_or s (fun r => judge_term r i t))) (k1_or s (fun r => judge_term r i mm))
+      | Some t => flag (flag m (k1_or s (judge_term i t)))
+                       (if q_mem s then k1_or s (judge_term i mm) else 0)
       end
   | _ => flag m 1                        (* malformed trace *)
   end.
